@@ -178,7 +178,16 @@ def family(tier, seed, only=None):
     real = open(os.path.join(core.REPO, "impl/src/fmt/parsing.rs")).read()
     sha = hashlib.sha256(real.encode()).hexdigest()
     consts = "".join("pub(crate) const %s: usize = %d;\n" % kv for kv in b.items())
-    proofs = consts + open(os.path.join(SPECS, "c03_proofs.rs")).read()
+    ptxt = open(os.path.join(SPECS, "c03_proofs.rs")).read()
+    # unwind bounds follow the string bounds of the tier (memcmp / char loops over at most that many bytes)
+    ptxt = ptxt.replace("#[kani::unwind(7)]", "#[kani::unwind(%d)]" % (b["A_UF"] + 3))
+    ptxt = ptxt.replace("#[kani::unwind(12)]\n    ob_format_spec_wide_fill", "#[kani::unwind(%d)]\n    ob_format_spec_wide_fill" % (b["W_UF"] + 8))
+    ptxt = ptxt.replace("#[kani::unwind(9)] ob_text_wide", "#[kani::unwind(%d)] ob_text_wide" % (b["W_L1"] + 8))
+    ptxt = ptxt.replace("#[kani::unwind(9)] ob_identifier_wide", "#[kani::unwind(%d)] ob_identifier_wide" % (b["W_L1"] + 8))
+    ptxt = ptxt.replace("#[kani::unwind(9)] ob_text,", "#[kani::unwind(%d)] ob_text," % (b["A_L1"] + 5))
+    ptxt = ptxt.replace("#[kani::unwind(9)] ob_identifier,", "#[kani::unwind(%d)] ob_identifier," % (b["A_L1"] + 5))
+    ptxt = ptxt.replace("#[kani::unwind(9)] ob_integer,", "#[kani::unwind(%d)] ob_integer," % (b["A_INT"] + 5))
+    proofs = consts + ptxt
     hs = harness_list(b)
     phs = ph_harness_list()
     only = only or [x for x in os.environ.get("VERIF_ONLY", "").split(",") if x]
